@@ -107,7 +107,7 @@ func (a *authRun) hello(st authStep) {
 			fatal("behaviour presents a %d-byte salt under a class with %d-byte salts", len(salt), ss)
 		default:
 			rec, same := a.stream[st.T], a.skey[st.T].Cls == ks.Cls && a.skey[st.T].Sec == ks.Sec
-			choice := a.rng.Intn(5)
+			choice := a.rng.Intn(6)
 			switch {
 			case same && choice == 1:
 				b, form = append([]byte{}, rec...), "recorded-whole"
@@ -121,6 +121,12 @@ func (a *authRun) hello(st authStep) {
 				extra := make([]byte, 1+a.rng.Intn(100))
 				a.rng.Read(extra)
 				b, form = append(append([]byte{}, rec...), extra...), fmt.Sprintf("recorded-extended-%d", len(extra))
+			case same && choice == 4 && len(rec) >= ss+2+tagSize:
+				// the recorded salt + encrypted length, then OTHER bytes (for 16/24-byte salts they fall inside the
+				// 50-byte search window)
+				other := make([]byte, 50-(ss+2+tagSize)+1+a.rng.Intn(60))
+				a.rng.Read(other)
+				b, form = append(append([]byte{}, rec[:ss+2+tagSize]...), other...), "recorded-header-then-other-bytes"
 			default:
 				b, form = validStream(key, id, salt, a.rng), "own-stream-under-that-salt"
 			}
@@ -233,9 +239,6 @@ func (a *authRun) end(ac *aconn, mayWait bool) {
 	authm := 0
 	if rec.authmCalled {
 		authm = nameOfID(rec.authm)
-		if authm == 0 {
-			authm = -1
-		}
 	}
 	probe := ""
 	if rec.probeCalled {
@@ -248,16 +251,17 @@ func (a *authRun) end(ac *aconn, mayWait bool) {
 }
 
 func runAuthBehaviour(steps []authStep, keys []keySpec, kmap []int, seed int64, timeout time.Duration) []ev {
+	debug := seed%2 == 0 // every second behaviour runs with a DEBUG-level logger (-verbose)
 	a := &authRun{rng: rand.New(rand.NewSource(seed)), keys: keys, kmap: kmap, timeout: timeout, conns: map[int]*aconn{},
 		intern: map[string]int{}, saltOf: map[int][]byte{}, stream: map[int][]byte{}, skey: map[int]keySpec{}, forms: map[string]int{}}
 	for i, st := range steps {
 		switch st.A {
 		case "New":
-			a.s = newServer(st.Cache, timeout, false, false, false)
+			a.s = newServer(st.Cache, timeout, false, false, false, debug)
 			defer a.s.close()
 			gen := a.s.reg.build(keys, 1)
 			a.s.cl.Update(gen)
-			a.emit(ev{"ev": "New", "cache": st.Cache, "seed": seed})
+			a.emit(ev{"ev": "New", "cache": st.Cache, "seed": seed, "debug": debug})
 		case "Hello":
 			a.hello(st)
 		case "FindKey", "CheckSalt", "CheckReplay":
@@ -372,7 +376,7 @@ func modeSalts(outPath string, n, par int, seed int64) {
 	const nsrv = 4
 	srv := make([]*server, nsrv)
 	for i := range srv {
-		srv[i] = newServer("on", 5*time.Second, false, false, true)
+		srv[i] = newServer("on", 5*time.Second, false, false, true, i%2 == 1)
 		defer srv[i].close()
 		srv[i].cl.Update(srv[i].reg.build(keys, 1))
 	}
